@@ -1,0 +1,19 @@
+//go:build !verif
+
+package verifhook
+
+import "context"
+
+// No-op stubs: without the `verif` build tag the instrumentation points in the
+// executor compile to calls that do nothing.
+
+type Counter struct{}
+
+func (*Counter) Next() int { return 0 }
+
+func RegisterTop(call any, k int)                                      {}
+func Enter(ctx context.Context, call any, task string) context.Context { return ctx }
+func Child(ctx context.Context, kind string, idx int) context.Context  { return ctx }
+func Adopt(ctx context.Context, call any) context.Context              { return ctx }
+func Ev(ctx context.Context, kind string, args ...any)                 {}
+func ErrClass(err error) string                                        { return "" }
